@@ -218,7 +218,7 @@ def run(module, cfg=None, scratch=None, workers=16, timeout=900, env=None, deadl
     import tempfile
     os.makedirs(scratch, exist_ok=True)
     meta = tempfile.mkdtemp(prefix="tlc_%s_%s_" % (module, cfg), dir=scratch)      # unique even for parallel chunks
-    cmd = ["java", "-XX:+UseParallelGC", "-Xmx" + heap, "-cp", JAR, "tlc2.TLC",
+    cmd = ["java", "-XX:+UseParallelGC", "-Xss128m", "-Xmx" + heap, "-cp", JAR, "tlc2.TLC",
            "-config", cfg + ".cfg", "-workers", str(workers), "-metadir", meta, "-noGenerateSpecTE"]
     if not deadlock_check:
         cmd.append("-deadlock")      # -deadlock switches deadlock checking OFF
